@@ -10,7 +10,7 @@ import (
 var fsRuleSets = map[string][]string{
 	"C04": {"LIST-WRITE", "LIST-HELD", "LIST-VALID", "LIST-CONTENT", "LIST-COMPLETE", "POST-COMMIT-OK", "FAIL-NO-EFFECT", "LOCK-OWN", "UPTODATE-MEANS-EQUAL"},
 	"C05": {"ORDER-TABLE-FIRST", "ORDER-DELETE-LAST", "LIST-CONTENT", "LIST-VALID", "GATE-IDX", "UPTODATE-MEANS-EQUAL", "NAME-FRESH", "HASH-TYPE", "LOCK-OWN", "LOCK-EXCL"},
-	"C06": {"PRE-COMMIT-INVISIBLE", "ORDER-TABLE-FIRST", "ORDER-DELETE-LAST", "LIST-WRITE", "LIST-COMPLETE", "LIST-CONTENT", "LOCK-OWN", "LOCK-EXCL"},
+	"C06": {"PRE-COMMIT-INVISIBLE", "ORDER-TABLE-FIRST", "ORDER-DELETE-LAST", "LIST-WRITE", "LIST-COMPLETE", "LIST-CONTENT", "LOCK-OWN", "LOCK-EXCL", "GATE-IDX"},
 	"C08": {"LOCK-EXCL", "LOCK-OWN"},
 	"C09": {"LIST-VALID", "UPTODATE-MEANS-EQUAL", "STALE-RELOAD", "STALE-NO-RESIDUE", "FAIL-NO-EFFECT", "GATE-IDX"},
 	"C10": {"READER-OWN", "MERGED-FRESH", "RELOAD-COMPLETE", "NAME-FRESH", "LOCK-OWN", "LOCK-EXCL"},
@@ -189,7 +189,7 @@ func init() {
 		r.Engines = append(r.Engines, "effects")
 	}
 	checks["C07"] = func(p *Program, r *Report) {
-		checkFsSubset(p, r, []string{"COMPACT-PUBLISHES", "LIST-CONTENT", "ORDER-DELETE-LAST", "CONFIG-SAME"}, map[string]int{"COMPACT-PUBLISHES": 2, "LIST-CONTENT": 4, "CONFIG-SAME": 2})
+		checkFsSubset(p, r, []string{"COMPACT-PUBLISHES", "LIST-CONTENT", "ORDER-DELETE-LAST", "CONFIG-SAME", "LIST-VALID", "UPTODATE-MEANS-EQUAL"}, map[string]int{"COMPACT-PUBLISHES": 2, "LIST-CONTENT": 4, "CONFIG-SAME": 2, "LIST-VALID": 5})
 		checkCompactionTables(p, r, false, true)
 		r.Engines = []string{"pathsim", "dtable", "fsproto"}
 		r.Explanation = "Decision table of the compaction rewrite loop extracted by path-sensitive simulation: a ref (or log) record obtained from the raw merged view of exactly stack[first..last] is either handed unmodified to AddRef/AddLog or dropped, and DROP implies (first = 0 and IsDeletion) [or expiry, see C13]; output limits are (min of first, max of last); the compaction's merged view never suppresses deletions; the committed list keeps exactly the tables outside [first,last] plus the new table; a finished merge is published. These are necessary conditions of view preservation, not the equality of views itself."
@@ -199,7 +199,7 @@ func init() {
 	checks["C13"] = func(p *Program, r *Report) {
 		// the expiry is applied to the stack that was validated under the lock: the range
 		// and the view do not change between the up-to-date check and the rewrite
-		checkFsSubset(p, r, []string{"COMPACT-PUBLISHES", "LIST-VALID", "LIST-CONTENT"}, map[string]int{"COMPACT-PUBLISHES": 2})
+		checkFsSubset(p, r, []string{"COMPACT-PUBLISHES", "LIST-VALID", "LIST-CONTENT", "CONFIG-SAME"}, map[string]int{"COMPACT-PUBLISHES": 2, "CONFIG-SAME": 2})
 		checkCompactionTables(p, r, true, false)
 		r.Engines = []string{"pathsim", "dtable", "fsproto"}
 		r.Explanation = "Exact decision table of the expiry filter: over the atoms cfg=nil, cfg.Time?0, rec.Time?cfg.Time, cfg.Max?0, rec.idx?cfg.Max, cfg.Min?0, rec.idx?cfg.Min (all valuations consistent with the order theory are enumerated), KEEP implies not expired and DROP implies expired or a bottom tombstone, with E = cfg!=nil and ((Time>0 and rec.Time<Time) or (Max!=0 and idx>Max) or (Min!=0 and idx<Min)); the record written is the record read; refs are dropped only as bottom tombstones, never by expiry; a compaction that merged reports success only after publishing the new list."
